@@ -1,0 +1,17 @@
+//go:build verif
+// +build verif
+
+// Machine-checked contracts for this package (checked by /verif/govc).
+// Comment-only: no executable code.
+
+package util
+
+//@ import manifest "github.com/ovrclk/akash/manifest"
+
+// an exposed port becomes an HTTP ingress exactly when it is global TCP on external port 80
+//@ func ExposeExternalPort
+//@   ensures result == ite(expose.ExternalPort == 0, expose.Port, expose.ExternalPort)
+//@ func ShouldBeIngress
+//@   ensures result <==> (expose.Proto == "TCP" && expose.Global && ite(expose.ExternalPort == 0, expose.Port, expose.ExternalPort) == 80)
+
+//@ property C10 := ExposeExternalPort#*, ShouldBeIngress#*
